@@ -163,7 +163,7 @@ def run(ctx: Ctx, P, M):
 
 def main(ctx: Ctx):
     ctx.lean_gate()
-    n = 250 if ctx.tier == "quick" else 5000
+    n = 250 if ctx.tier == "quick" else 40000
     for i in range(n):
         if i % 2:
             M = random_mtl(ctx.rng, heads_disjoint=True)
